@@ -16,15 +16,19 @@ case "$PKG" in
   async-graphql-value) TD="$W/value/tests" ;;
 esac
 mkdir -p "$TD"; cp "$OUT/m${N}_demo.rs" "$TD/mutant_demo_$N.rs"
-export CARGO_TARGET_DIR=/tmp/seed-target
+# one build cache per queue (SEED_TARGET), seeded from the shared one; never shared between concurrent runs
+export CARGO_TARGET_DIR="${SEED_TARGET:-/tmp/seed-target}"
+if [ ! -d "$CARGO_TARGET_DIR" ] && [ -d /tmp/seed-target ]; then cp -a /tmp/seed-target "$CARGO_TARGET_DIR"; fi
 cd "$W"
+FEAT=""
+[ "$PKG" = "async-graphql" ] && FEAT="--features dataloader,tokio,apollo_persisted_queries"
 echo "--- without the change"
-cargo test --offline -p "$PKG" --test mutant_demo_$N 2>&1 | tail -5
-cargo test --offline -p "$PKG" --test mutant_demo_$N >/dev/null 2>&1; A=$?
+cargo test --offline -p "$PKG" $FEAT --test mutant_demo_$N 2>&1 | tail -5
+cargo test --offline -p "$PKG" $FEAT --test mutant_demo_$N >/dev/null 2>&1; A=$?
 git apply "$OUT/m$N.diff" || { echo "NOT-CONFIRMED (patch does not apply)"; exit 1; }
 # make sure cargo sees the change (mtime granularity / shared target dir)
 sleep 2; git diff --name-only | xargs -r touch; touch src/lib.rs parser/src/lib.rs value/src/lib.rs derive/src/lib.rs
 echo "--- with the change"
-cargo test --offline -p "$PKG" --test mutant_demo_$N 2>&1 | tail -8
-cargo test --offline -p "$PKG" --test mutant_demo_$N >/dev/null 2>&1; B=$?
+cargo test --offline -p "$PKG" $FEAT --test mutant_demo_$N 2>&1 | tail -8
+cargo test --offline -p "$PKG" $FEAT --test mutant_demo_$N >/dev/null 2>&1; B=$?
 if [ $A -eq 0 ] && [ $B -ne 0 ]; then echo "CONFIRMED $ID m$N"; else echo "NOT-CONFIRMED $ID m$N (without=$A with=$B)"; fi
